@@ -105,3 +105,16 @@ SPECS['C12'] = {
     'thorough': [J('c12', 'fast', srcs=SREF), J('c12', 'asan', srcs=SREF), J('c12', 'amd64', srcs=SREF)],
     'budget': {'quick': 100, 'thorough': 600},
 }
+
+SPECS['C14'] = {
+    'level': 'exploration',
+    'technique': 'small-scope exhaustive enumeration: per-type value grids (encode/decode), every byte string up to length 2 (6 over a boundary alphabet) into each primitive decoder, base64/hex/PEM automata in every (fill,len) pair and 2-cut, capacity edges, one-edit password neighbourhood; oracle = harness strict-DER reader, reference codecs and a civil-calendar function written for the harness',
+    'claim': 'Within the enumerated spaces every encoder output decodes to the same value consuming exactly its bytes, dry-run length equals bytes written (canary-checked), every input a primitive decoder accepts re-encodes to the identical bytes and is strict DER, composite objects are strict DER and round-trip, text codecs invert for every chunking, refuse malformed text and stay within the declared capacity, and no one-edit neighbour of the password opens an encrypted key.',
+    'trusted': 'harness der.h strict reader/writer, reference base64, Hinnant civil-from-days calendar algorithm; OpenSSL not needed here',
+    'rule': 'values: lengths and ints 0..70000 + 2^k, 2^k+-1; INTEGER byte strings length 1..33 x leading {00,01,7f,80,ff} x second byte {00,7f,80}; BOOLEAN; BIT STRING 0..40 bits; OIDs 2..33 arcs x 11 arc values; UTF-8 strings of 1..3 code points over 11 scalar-value boundaries + 11 invalid sequences; all 256 bytes as Printable/IA5 characters; every day 1970..9999 (quick: every day to 2051, then every 37th, last 400) at seconds {0,1,86399} + 11 impossible dates. decoders: 14 decoders x every string of length<=2 (and 3-4 after short lengths) over all bytes, length 3..6 over {00,01,02,7f,80,81,82,84,ff,tag}. text: base64 encoder (fill 0..47 x len 0..100), decoder n 0..200 x every 2-cut, 6 character substitutions at every position, 4095/4096; hex 0..200 both cases, odd lengths, every byte as a digit; PEM 3 capacities x {cap-1,cap,cap+1,2cap} x 3 newline styles, malformed bodies. composite: 5 keys x {ECPrivateKey, PKCS#8, SPKI (+ every 7th single-byte XOR of its header), PEM, encrypted PKCS#8 with ~30 wrong passwords}, algorithm identifiers, 32 name shapes. distinct = value / byte string.',
+    'bound': {'quick': 'calendar thinned after 2051', 'thorough': 'every day to 9999-12-31; encrypted PKCS#8 for all 5 keys'},
+    'assumptions': ['strings longer than 3 characters, big integers > 33 bytes, passwords beyond one edit are not covered'],
+    'quick': [J('c14', 'fast'), J('c14', 'asan', deadline=120)],
+    'thorough': [J('c14', 'fast'), J('c14', 'asan')],
+    'budget': {'quick': 150, 'thorough': 1500},
+}
